@@ -21,6 +21,8 @@ def rows(rnd):
         m = json.load(open(mp))
         checks = m["ran"]["checks"]
         verdicts = ", ".join(f"{p} {v['verdict']}" for p, v in checks.items())
+        if m.get("benign_since"):
+            verdicts += f" (no longer a violation since repository fix {m['benign_since']})"
         out.append((name, m.get("summary", ""), m.get("needs", ""), verdicts, m.get("history", "")))
     return out
 
@@ -36,7 +38,8 @@ def table(rnd):
     err = sum(1 for r in rs if r[4].startswith("harness error"))
     missed = sum(1 for r in rs if r[4].startswith("missed at first") or "missed it at first" in r[4] or r[4].startswith("missed"))
     now = sum(1 for r in rs if "CAUGHT" in r[3])
-    print(f"\n<!-- {rnd}: {n} changes; caught from the start {start}; harness error at first {err}; missed at first {missed}; caught now {now} -->")
+    benign = sum(1 for r in rs if "no longer a violation" in r[3])
+    print(f"\n<!-- {rnd}: {n} changes; caught from the start {start}; harness error at first {err}; missed at first {missed}; caught now {now}; no longer violations {benign} -->")
 
 
 if __name__ == "__main__":
